@@ -92,7 +92,7 @@ func TestCountRuns(t *testing.T) {
 						capped++
 					}
 				} else {
-					sc, pl := fixedSchedules(p, w)
+					sc, pl := fixedSchedules(p, w, quickFamily)
 					for i := range sc {
 						if pl[i] {
 							runs += len(cancelModes(w))
